@@ -51,28 +51,34 @@ Section Tables.
     replace (Z.to_nat (it + Z.of_nat i)) with (Z.to_nat it + i)%nat by lia. reflexivity.
   Qed.
 
-  Lemma gen_goldenposeidon_mix_eq : forall st opt, length st = 12%nat ->
-    goldenposeidon_mix gM gP st opt = mix pg 12 (if opt then gP else gM) st.
+  (* the double loop of mix for a FIXED matrix m (what remains of the generated function once
+     [opt] is known, wherever the source selects the matrix: inside the inner loop, as it does
+     now, or hoisted in front of the loops) *)
+  Lemma mix_body_eq : forall (m : list (list Z)) st, length st = 12%nat ->
+    fold_left (fun (newState : list Z) (i : nat) =>
+        fold_left (fun (newState0 : list Z) (j : nat) =>
+            set_nth i ((nth i newState0 0 + (nth i (nth j m []) 0 * nth j st 0) mod pg) mod pg) newState0)
+          (seq 0 12) (set_nth i 0 newState))
+      (seq 0 12)
+      (fold_left (fun (newState : list Z) (i : nat) => set_nth i 0 newState) (seq 0 12) (repeat 0 12))
+    = mix pg 12 m st.
   Proof.
-    intros st opt Hl. unfold goldenposeidon_mix, mix, goldenposeidon_zero. cbv zeta.
+    intros m st Hl. unfold mix.
     rewrite (fold_set_nth_build (fun _ => 0)) by (rewrite repeat_length; lia).
     rewrite skipn_all2 by (rewrite repeat_length; lia).
     rewrite app_nil_r, map_const_repeat, seq_length.
-    set (m := if opt then gP else gM).
     pose (lane := fun i => fold_left (fun acc j => (acc + ((nth i (nth j m []) 0) * (nth j st 0)) mod pg) mod pg)
                                      (seq 0 12) 0).
     assert (E : forall ns, length ns = 12%nat ->
               fold_left (fun (newState : list Z) (i : nat) =>
                 fold_left (fun (newState0 : list Z) (j : nat) =>
-                  set_nth i ((nth i newState0 0 +
-                     (if opt then (nth i (nth j gP []) 0 * nth j st 0) mod pg
-                      else (nth i (nth j gM []) 0 * nth j st 0) mod pg)) mod pg) newState0)
+                  set_nth i ((nth i newState0 0 + (nth i (nth j m []) 0 * nth j st 0) mod pg) mod pg) newState0)
                   (seq 0 12) (set_nth i 0 newState)) (seq 0 12) ns =
               fold_left (fun ns i => set_nth i (lane i) ns) (seq 0 12) ns).
     { intros ns0 Hns0.
       apply (fold_left_ext_inv (list Z) nat (fun ns => length ns = 12%nat)); [exact Hns0|].
       intros ns i Hns Hi. apply in_seq in Hi. split; [|rewrite length_set_nth; lia].
-      subst lane m. cbv beta. destruct opt;
+      subst lane. cbv beta.
       match goal with |- fold_left _ _ _ = set_nth i (fold_left ?g _ _) _ =>
         rewrite (fold_set_nth_same_slot nat g) by (rewrite length_set_nth; lia)
       end; rewrite nth_set_nth_eq, set_nth_set_nth by lia; reflexivity. }
@@ -82,6 +88,13 @@ Section Tables.
     apply map_ext. intros i. subst lane. cbv beta. unfold nthm.
     rewrite (fold_left_combine_seq Z (fun acc j x => (acc + (nth i (nth j m []) 0 * x) mod pg) mod pg)), Hl.
     reflexivity.
+  Qed.
+
+  Lemma gen_goldenposeidon_mix_eq : forall st opt, length st = 12%nat ->
+    goldenposeidon_mix gM gP st opt = mix pg 12 (if opt then gP else gM) st.
+  Proof.
+    intros st opt Hl. unfold goldenposeidon_mix, goldenposeidon_zero.
+    destruct opt; cbv beta iota zeta; apply mix_body_eq; exact Hl.
   Qed.
 
   Lemma gold_ark_length : forall st it, length (ark pg gC st it) = length st.
